@@ -4,6 +4,8 @@ CONSTANTS
   CrashPoints = FALSE
   RollFaults = TRUE
   RollKills = TRUE
+  LogListFaults = TRUE
+  ListingDesign = "skip"
   RoomFaults = TRUE
   RollDesign = "rename"
   MaxCount = 3
